@@ -272,18 +272,18 @@ func VerifC13SlashOnlyIf() {
 	window := rt.U64("signedWindow")
 	rt.Assume(rt.And(window >= 1, window < 1<<40))
 	e.setParams(verifParamSets[0], window)
-	oracles := e.verifSymOracles(2)
+	oracles := e.verifSymOracles(rt.Bound("slashingOracles", 2, 3))
 	e.k.SetLastTotalPower(e.ctx)
 	h := rt.U64("object.height")
 	rt.Assume(rt.And(h >= 1, h <= uint64(ctxH)))
 	kind := rt.Choose("kind", 4) // oracle set, batch, bridge call, batch + bridge call
-	var confirmed [2]int
+	confirmed := make([]int, len(oracles))
 	for i := range oracles {
 		confirmed[i] = rt.Choose(fmt.Sprintf("oracle%d.confirmed", i), 3) // no, yes, yes and bridger rotated since
 	}
 	bridgerAt := func(i int) string {
 		if confirmed[i] == 2 {
-			return verifOracleIdent(5 + i).bridger.String() // the key the oracle used when it confirmed
+			return verifOracleIdent(7 + i).bridger.String() // the key the oracle used when it confirmed
 		}
 		return verifOracleIdent(i).bridger.String()
 	}
